@@ -26,7 +26,7 @@ TRIG_PERIO == 1
 Rng(s) == {s[i] : i \in DOMAIN s}
 BitSet(x, b) == (x \div b) % 2 = 1
 V(ok, tag) == IF ok THEN {} ELSE {tag}
-NodePeer(n) == CASE n = "n1" -> "p1" [] n = "n2" -> "p2" [] n = "n3" -> "p3" [] n = "n4" -> "p4" [] OTHER -> "none"
+NodePeer(n) == CASE n = "n1" -> "p1" [] n = "n2" -> "p2" [] n = "n3" -> "p3" [] n = "n4" -> "p4" [] n = "n5" -> "p5" [] OTHER -> "none"
 GnbName(i) == "g" \o ToString(i)
 
 H0 == [ assoc |-> {}, live |-> {}, far |-> {}, pdr |-> {}, qer |-> {}, urr |-> {}, q |-> {}, seen |-> {}, skip |-> FALSE ]
